@@ -140,26 +140,77 @@ type picProj struct {
 }
 
 // picProject reads the bytes of a package; tokOf maps the SHA-1 of a part's bytes to the image token.
+// Only the entries the projection needs are inflated (package relationships, the main part, its
+// relationship part, binary parts); the reader is archive/zip + the strict XML walk of opc.go.
 func picProject(b []byte, tokOf map[string]string) picProj {
 	pr := picProj{saved: "ok", body: []picM{}, media: []picM{}, rels: []picM{}}
-	p := ReadPkg(b)
-	if p.ZipErr != "" {
+	zr, err := zip.NewReader(bytes.NewReader(b), int64(len(b)))
+	if err != nil {
 		pr.saved = "zip"
 		return pr
 	}
-	main := p.MainDocName()
-	body, err := p.MainBody()
-	if err != nil {
+	read := func(f *zip.File) ([]byte, bool) {
+		rc, err := f.Open()
+		if err != nil {
+			return nil, false
+		}
+		data, err := io.ReadAll(rc)
+		rc.Close()
+		return data, err == nil
+	}
+	last := map[string]*zip.File{} // last entry of a name wins, as for any ZIP consumer
+	for _, f := range zr.File {
+		last[strings.TrimPrefix(f.Name, "/")] = f
+	}
+	relsOf := func(name string) ([]Rel, string) {
+		f, ok := last[name]
+		if !ok {
+			return nil, "missing"
+		}
+		data, ok := read(f)
+		if !ok {
+			return nil, "zip"
+		}
+		root, err := ParseXML(data)
+		if err != nil {
+			return nil, "xml"
+		}
+		var rs []Rel
+		for _, r := range root.Children("Relationship") {
+			rs = append(rs, Rel{ID: r.A("Id"), Type: r.A("Type"), Target: r.A("Target"), Mode: r.A("TargetMode")})
+		}
+		return rs, ""
+	}
+	main := "word/document.xml"
+	if rs, e := relsOf("_rels/.rels"); e == "" {
+		for _, r := range rs {
+			if r.Type == relOfficeDoc {
+				main = ResolveTarget("", r.Target)
+			}
+		}
+	}
+	mf, ok := last[main]
+	if !ok {
 		pr.saved = "xml"
 		return pr
 	}
-	relsName := RelsPartFor(main)
-	if e, bad := p.RelsErr[relsName]; bad && e != "" {
+	data, ok := read(mf)
+	if !ok {
+		pr.saved = "zip"
+		return pr
+	}
+	root, err := ParseXML(data)
+	if err != nil || root.Local != "document" || root.Child("body") == nil {
+		pr.saved = "xml"
+		return pr
+	}
+	pr.body = picBodyOf(root.Child("body"))
+	rs, e := relsOf(RelsPartFor(main))
+	if e == "xml" || e == "zip" {
 		pr.saved = "rels"
 		return pr
 	}
-	pr.body = picBodyOf(body)
-	for _, r := range p.Rels[relsName] {
+	for _, r := range rs {
 		tgt := "external:" + r.Target
 		if r.Mode != "External" {
 			tgt = ResolveTarget(main, r.Target)
@@ -167,24 +218,13 @@ func picProject(b []byte, tokOf map[string]string) picProj {
 		pr.rels = append(pr.rels, picM{"id": r.ID, "kind": picRelKind(r.Type), "tgt": tgt})
 	}
 	// every binary entry of the archive (duplicates preserved) with the token of its bytes
-	zr, err := zip.NewReader(bytes.NewReader(b), int64(len(b)))
-	if err != nil {
-		pr.saved = "zip"
-		return pr
-	}
 	for _, f := range zr.File {
 		low := strings.ToLower(f.Name)
 		if strings.HasSuffix(low, ".xml") || strings.HasSuffix(low, ".rels") || strings.HasSuffix(f.Name, "/") {
 			continue
 		}
-		rc, err := f.Open()
-		if err != nil {
-			pr.saved = "zip"
-			return pr
-		}
-		data, err := io.ReadAll(rc)
-		rc.Close()
-		if err != nil {
+		data, ok := read(f)
+		if !ok {
 			pr.saved = "zip"
 			return pr
 		}
